@@ -278,7 +278,7 @@ func buildCatalogue(c *Ctx) []buildCase {
 	out = append(out, buildCase{ID: "layout/two-annotated-type-files-one-package", Files: func(pkg, goName string) []*spec.File {
 		mk := func(n string) *spec.File {
 			f := &spec.File{Path: strings.ReplaceAll(pkg, ".", "/") + "/" + n + ".proto", Package: pkg, GoImport: "lab/gen/" + goName, GoName: goName}
-			f.Messages = []*spec.Message{{Name: strings.Title(n) + "Msg", Fields: []*spec.Field{spec.F("big", 1, spec.Int64).With(func(a *spec.Ann) { a.Int64Enc = 2 }), spec.F("raw", 2, spec.Bytes).With(func(a *spec.Ann) { a.BytesEnc = 5 })}}}
+			f.Messages = []*spec.Message{{Name: strings.Title(n) + "Msg", Fields: []*spec.Field{spec.F("big", 1, spec.Int64).With(func(a *spec.Ann) { a.Int64Enc = 2 })}}, {Name: strings.Title(n) + "Blob", Fields: []*spec.Field{spec.F("raw", 2, spec.Bytes).With(func(a *spec.Ann) { a.BytesEnc = 5 })}}}
 			return f
 		}
 		return []*spec.File{mk("one"), mk("two")}
